@@ -62,52 +62,44 @@ impl Substance {
 
     pub fn get(&self, name: &str) -> Result<Number, SubstanceGetError> {
         if self.amount.dimless() {
-            self.properties
-                .properties
-                .get(name)
-                .ok_or_else(|| {
-                    SubstanceGetError::Generic(format!(
-                        "No such property {} of {}",
-                        name, self.properties.name
-                    ))
-                })
-                .map(|prop| {
-                    (&(&self.amount * &prop.output).unwrap() / &prop.input)
-                        .expect("Non-zero property")
-                })
-        } else {
-            // output * (amount / input) rather than output / (input / amount):
-            // an amount of zero is not a division by zero.
-            for prop in self.properties.properties.values() {
-                if name == prop.output_name {
-                    let amount = (&self.amount / &prop.input)
-                        .ok_or_else(|| SubstanceGetError::Generic("Division by zero".to_owned()))?;
-                    if amount.dimless() {
-                        return Ok((&prop.output * &amount).unwrap());
-                    } else {
-                        return Err(SubstanceGetError::Conformance(
-                            self.amount.clone(),
-                            prop.input.clone(),
-                        ));
-                    }
-                } else if name == prop.input_name {
-                    let amount = (&self.amount / &prop.output)
-                        .ok_or_else(|| SubstanceGetError::Generic("Division by zero".to_owned()))?;
-                    if amount.dimless() {
-                        return Ok((&prop.input * &amount).unwrap());
-                    } else {
-                        return Err(SubstanceGetError::Conformance(
-                            self.amount.clone(),
-                            prop.output.clone(),
-                        ));
-                    }
+            if let Some(prop) = self.properties.properties.get(name) {
+                return Ok((&(&self.amount * &prop.output).unwrap() / &prop.input)
+                    .expect("Non-zero property"));
+            }
+        }
+        // output * (amount / input) rather than output / (input / amount):
+        // an amount of zero is not a division by zero. A plain number as the
+        // amount gets here too when `name` is one side of a property: that
+        // is an amount of the wrong dimensionality.
+        for prop in self.properties.properties.values() {
+            if name == prop.output_name {
+                let amount = (&self.amount / &prop.input)
+                    .ok_or_else(|| SubstanceGetError::Generic("Division by zero".to_owned()))?;
+                if amount.dimless() {
+                    return Ok((&prop.output * &amount).unwrap());
+                } else {
+                    return Err(SubstanceGetError::Conformance(
+                        self.amount.clone(),
+                        prop.input.clone(),
+                    ));
+                }
+            } else if name == prop.input_name {
+                let amount = (&self.amount / &prop.output)
+                    .ok_or_else(|| SubstanceGetError::Generic("Division by zero".to_owned()))?;
+                if amount.dimless() {
+                    return Ok((&prop.input * &amount).unwrap());
+                } else {
+                    return Err(SubstanceGetError::Conformance(
+                        self.amount.clone(),
+                        prop.output.clone(),
+                    ));
                 }
             }
-            Err(SubstanceGetError::Generic(format!(
-                "No such property {} of {}",
-                name, self.properties.name
-            )))
         }
+        Err(SubstanceGetError::Generic(format!(
+            "No such property {} of {}",
+            name, self.properties.name
+        )))
     }
 
     /// Analogous to Context::show()
